@@ -1,6 +1,7 @@
 /-
-Executable checkers for C04 (evaluated by `decide +kernel` over all assignments of the guard
-variables that occur in Gen/Modes.lean; chunked over several modules so they build in parallel).
+The guard variables of Gen/Modes.lean and their 2^9 assignments (`envOf m`), shared by the C04 checkers
+(`Lemmas/C04SymCheck.lean`, where the run-time values are symbolic) and C07's gating checkers
+(`Lemmas/C07Gate.lean`, which evaluate at the representative values below).
 -/
 import VaxisModel.Model.Lifecycle
 import VaxisModel.Spec.ModeTerm
@@ -29,35 +30,5 @@ def t0Of (e : Env) : MTerm :=
     appIdSupported := e.v "caps.osc176"
     appId := "617070"
     cursorShape := e.userCursorStyle }
-
-/-- What frames may have left behind when shutdown starts: a pointer shape, a cursor shape, the
-    cursor shown or hidden as last rendered. -/
-def midToks (clv : Bool) : List Tok :=
-  [.pointer "78", .cursorStyle 5, if clv then .decset 25 else .decrst 25]
-
-def appCursor (vis : Bool) : CursorState := { row := 1, col := 1, style := 5, visible := vis }
-
-/-- start-up · (some frames) · Close restores everything, for assignment `m` and the cursor flags. -/
-def balancedB (m : Nat) (cnv clv : Bool) : Bool :=
-  let e := envOf m
-  let w1 := startupW e
-  let w2 := closeW e false { w1 with wire := [], cn := appCursor cnv, cl := appCursor clv }
-  restored (t0Of e) (run (t0Of e) (w1.wire ++ midToks clv ++ w2.wire))
-
-/-- start-up · Suspend restores everything; Resume then re-establishes exactly the start-up state. -/
-def resumeB (m : Nat) (cnv clv : Bool) : Bool :=
-  let e := envOf m
-  let t0 := t0Of e
-  let w1 := startupW e
-  let t1 := run t0 w1.wire
-  let w2 := suspendW e { w1 with wire := [], cn := appCursor cnv, cl := appCursor clv }
-  let t2 := run (run t1 (midToks clv)) w2.wire
-  let w3 := resumeW e { w2 with wire := [] }
-  let t3 := run t2 w3.wire
-  restored t0 t2 && (t3.modes.all fun (n, v) => modeVal t1 n == v) && (t1.modes.all fun (n, v) => modeVal t3 n == v) &&
-  t3.alt == t1.alt && t3.kitty == t1.kitty && t3.keypadApp == t1.keypadApp && t3.cursorVisible == t1.cursorVisible
-
-def chunkB (f : Nat → Bool → Bool → Bool) (lo hi : Nat) : Bool :=
-  (List.range (hi - lo)).all fun k => f (lo + k) false false && f (lo + k) false true && f (lo + k) true false && f (lo + k) true true
 
 end VaxisModel.Lemmas.C04Check
